@@ -27,6 +27,8 @@ type Oblig struct {
 	Desc   string
 	Cover  bool     // a reachability (must be SAT) check
 	Params []string // names of SMT constants holding the function inputs (for replay)
+	Raw      string   // complete query text (lemma files)
+	RetTerms []string // SMT terms of the returned values (post obligations)
 	vc     *VC
 }
 
